@@ -61,6 +61,16 @@ def extract(o, path="", out=None):
         from vf.oracle import placement
         for i, s in enumerate(o.trajectory.state_list):
             if not isinstance(getattr(s, "position", None), np.ndarray):
+                # an uncertain position with an exact heading: the occupancy (a box in the heading frame around the region
+                # and the shape) turns and moves with the region -- its corners are moved like stored points
+                if getattr(s, "position", None) is not None and isinstance(getattr(s, "orientation", None), (int, float)):
+                    try:
+                        d_ = geom.describe(o.occupancy_at_time_step(s.time_step).shape)
+                        if d_[0] == "rect":
+                            out.append(("%s.trajectory.state_list[%d]~occupancy-around-region" % (path, i), "ring",
+                                        [tuple(map(float, v)) for v in d_[1]]))
+                    except Exception:  # noqa  (totality of occupancy queries is C04's business)
+                        pass
                 continue
             if type(s).__name__ != "PMState" and not isinstance(getattr(s, "orientation", None), (int, float)):
                 continue
